@@ -1,2 +1,135 @@
--- stub driver, replaced by the builder of X09
-def main : IO Unit := pure ()
+import PyramidModel.Prelude
+import PyramidModel.Dotted
+/-! Driver for X09: one JSON case per line (see harness/x09.py for the shape).
+in : {"mods":[[dotted,"pkg"|"module"|"bad"],…],"attrs":[[["m",dotted]|["o",id],name,id],…],"pre":[dotted,…],"mode":"dnr"|"cfg",
+      "pkg":{"k":"none"}|{"k":"caller","v":dotted}|{"k":"name","v":str}|{"k":"obj","v":dotted},
+      "ops":[{"m":"resolve"|"maybe"|"name"|"package","s":str}|{"m":…,"o":n},…]}
+out: {"init":…,"init_calls":[…],"init_finds":[…],"ops":[{"out":O,"calls":[…],"finds":[…]},…],"loaded":[…]} -/
+open Pyr Pyr.Dotted Lean
+
+namespace DrvX09
+
+def pathOf (s : String) : Path := splitOn '.' s.toList
+def dotted (p : Path) : String := String.ofList (joinDots p)
+def jPaths (ps : List Path) : Json := Json.arr (ps.map fun p => Json.str (dotted p)).toArray
+
+def arrOf (j : Json) : Except String (List Json) :=
+  match j with
+  | .arr xs => pure xs.toList
+  | _ => throw "expected a list"
+
+def kindOf : String → Except String MK
+  | "pkg" => pure .pkg
+  | "module" => pure .module
+  | "bad" => pure .bad
+  | k => throw s!"unknown kind {k}"
+
+def ownerOf (j : Json) : Except String Obj := do
+  match ← arrOf j with
+  | [t, v] =>
+    let t : String ← fromJson? t
+    if t == "m" then
+      let s : String ← fromJson? v
+      pure (.mod (pathOf s))
+    else
+      let n : Nat ← fromJson? v
+      pure (.att n)
+  | _ => throw "owner"
+
+def univOf (j : Json) : Except String Univ := do
+  let ms ← (← arrOf (← getField j "mods")).mapM fun e => do
+    match ← arrOf e with
+    | [n, k] =>
+      let n : String ← fromJson? n
+      let k : String ← fromJson? k
+      pure (pathOf n, ← kindOf k)
+    | _ => throw "mods entry"
+  let as ← (← arrOf (← getField j "attrs")).mapM fun e => do
+    match ← arrOf e with
+    | [o, n, i] =>
+      let n : String ← fromJson? n
+      let i : Nat ← fromJson? i
+      pure (← ownerOf o, n.toList, i)
+    | _ => throw "attrs entry"
+  pure { mods := ms, attrs := as }
+
+def jErr : Err → String
+  | .importError => "ImportError"
+  | .attributeError => "AttributeError"
+  | .relValueError => "ValueErrorRel"
+  | .valueError => "ValueError"
+  | .indexError => "IndexError"
+
+def jOut : Out → Json
+  | .obj (.mod p) => Json.mkObj [("ok", Json.arr #["mod", Json.str (dotted p)])]
+  | .obj (.att i) => Json.mkObj [("ok", Json.arr #["att", toJson i])]
+  | .same n => Json.mkObj [("ok", Json.arr #["same", toJson n])]
+  | .pyNone => Json.mkObj [("ok", Json.arr #["same", toJson (0 : Nat)])]
+  | .str t => Json.mkObj [("ok", Json.arr #["str", Json.str (String.ofList t)])]
+  | .err e => Json.mkObj [("err", Json.str (jErr e))]
+
+def methOf : String → Except String Meth
+  | "resolve" => pure .resolve
+  | "maybe" => pure .maybe
+  | "name" => pure .name
+  | "package" => pure .package
+  | m => throw s!"unknown method {m}"
+
+def nonstr : Nat := 4
+
+def opOf (j : Json) : Except String (Meth × Arg) := do
+  let m ← methOf (← getAs j "m")
+  match j.getObjVal? "s" with
+  | .ok s =>
+    let s : String ← fromJson? s
+    pure (m, .str s.toList)
+  | .error _ =>
+    let n : Nat ← getAs j "o"
+    pure (m, .other (n % nonstr))
+
+def reset (st : St) : St := { st with calls := [], finds := [] }
+
+def runOps (U : Univ) (sel : Sel) : List (Meth × Arg) → St → List Json × St
+  | [], st => ([], st)
+  | (m, a) :: rest, st =>
+    let (o, st1) := runOp U sel m a (reset st)
+    let j := Json.mkObj [("out", jOut o), ("calls", jPaths st1.calls), ("finds", jPaths st1.finds)]
+    let (js, st2) := runOps U sel rest st1
+    (j :: js, st2)
+
+def finish (init : String) (ic fi : List Path) (ops : List Json) (st : St) : Json :=
+  let loaded := (st.loaded.map dotted).mergeSort (fun a b => decide (a ≤ b))
+  Json.mkObj [("init", Json.str init), ("init_calls", jPaths ic), ("init_finds", jPaths fi), ("ops", Json.arr ops.toArray),
+              ("loaded", toJson loaded)]
+
+def run (j : Json) : Except String Json := do
+  let U ← univOf j
+  let pre : List String ← getAs j "pre"
+  let mode : String ← getAs j "mode"
+  let pk ← getField j "pkg"
+  let k : String ← getAs pk "k"
+  let ops ← (← arrOf (← getField j "ops")).mapM opOf
+  let st0 := pre.foldl (fun st m => (importPath U (pathOf m) st).2) ({} : St)
+  let v : String ← if k == "none" then pure "" else getAs pk "v"
+  let p := pathOf v
+  -- a module object / the calling module must be importable, otherwise the case is void
+  let (pe, st1) := if k == "caller" || k == "obj" then importPath U p st0 else (none, st0)
+  if pe.isSome then
+    return finish "invalid" [] [] [] st1
+  let arg : PkgArg :=
+    if k == "none" then .none
+    else if k == "name" then .name p
+    else if k == "obj" then .obj p
+    else if mode == "cfg" then .obj p          -- Configurator(): package = caller_package(), then DottedNameResolver(module)
+    else .caller p
+  let (r, st2) := initResolver U arg (reset st1)
+  let (ic, fi) := if mode == "cfg" then ([], []) else (st2.calls, st2.finds)
+  match r with
+  | .error e => return finish (jErr e) ic fi [] st2
+  | .ok sel =>
+    let (js, st3) := runOps U sel ops st2
+    return finish "ok" ic fi js st3
+
+end DrvX09
+
+def main : IO Unit := jsonDriver DrvX09.run
